@@ -22,7 +22,7 @@ import (
 	"github.com/regclient/regclient/types/ref"
 )
 
-// One step (two thorough) of push-by-tag, push-by-digest, tag delete or
+// One step of push-by-tag, push-by-digest, tag delete or
 // manifest delete from an arbitrary repository state (three tags, each absent or
 // on one of two manifests that may share tags; untagged stored manifests) on
 // a registry (zzreg behind the Client.Do seam) that does or does not implement
@@ -99,7 +99,8 @@ func ZZC06_reg_history() {
 	for _, k := range tagNames {
 		_, _ = rg.ManifestHead(ctx, r.SetTag(k))
 	}
-	steps := 1 + zzTier()
+	// one step from an arbitrary state: histories of any length follow by induction over the state
+	steps := 1
 	for s := 0; s < steps; s++ {
 		ti := zzInt("tag", 0, 2)
 		for k := 0; k < 3; k++ {
